@@ -160,6 +160,11 @@ WriteOp(i) == /\ CanObs
                       [kind |-> "bytes", lazy |-> BytesL0(pool[i]), eager |-> BytesEager(pool[i], ghost[i])])
               /\ UNCHANGED <<pool, ghost, nrep, err>>
 
+\* t[j] with a Python or a NumPy integer: one entry (an observation; the table itself is unchanged)     lazybnpdataclass.py:144-146
+RowOp(i, j, form) == /\ CanObs
+                     /\ Step([op |-> "row", t |-> i, j |-> j, form |-> form], [kind |-> "rows", val |-> <<RowsOf(pool[i], ghost[i])[j]>>])
+                     /\ UNCHANGED <<pool, ghost, nrep, err>>
+
 Len_     == "len" \in Ops /\ \E i \in DOMAIN pool : LenOp(i)
 ToRows_  == "tolist" \in Ops /\ \E i \in DOMAIN pool : ToRowsOp(i)
 Write_   == "write" \in Ops /\ \E i \in DOMAIN pool : WriteOp(i)
@@ -167,7 +172,8 @@ Get_     == "get" \in Ops /\ \E i \in DOMAIN pool : \E f \in Fields : GetOp(i, f
 Replace_ == "replace" \in Ops /\ \E i \in DOMAIN pool : \E f \in Fields : ReplaceOp(i, f)
 Index_   == "index" \in Ops /\ \E i \in DOMAIN pool : \E kind \in Sels : IndexOp(i, kind)
 Concat_  == "concat" \in Ops /\ \E i \in DOMAIN pool : \E k \in DOMAIN pool : ConcatOp(i, k)
-Next == Len_ \/ ToRows_ \/ Write_ \/ Get_ \/ Replace_ \/ Index_ \/ Concat_
+Row_     == "row" \in Ops /\ \E i \in DOMAIN pool : \E j \in {k \in {1, NRows(pool[i])} : k >= 1 /\ k <= NRows(pool[i])} : \E form \in {"int", "npint"} : RowOp(i, j, form)
+Next == Len_ \/ ToRows_ \/ Write_ \/ Get_ \/ Replace_ \/ Index_ \/ Concat_ \/ Row_
 
 Spec == Init /\ [][Next]_vars
 
